@@ -169,6 +169,10 @@ def run(repo, rep, tier):
     _r9_array_braces(repo, rep)
     _r10_values_not_defaulted_by_truth(repo, rep)
     _r11_keyword_by_own_attribute(repo, rep)
+    from .c09 import per_compile_state_rule
+    per_compile_state_rule(repo, rep, rep.rule(
+        'C08.R12', 'the compiler leaves the embedded-object mode (and other '
+        'per-compile parser state) also when a compile fails'))
     # ---- R6 ---------------------------------------------------------------
     for cname in MOF_CLASSES:
         cls = repo.cls(OBJ, cname)
